@@ -21,17 +21,27 @@ class C15(Spec):
     rule = ("Http::Client (1-3 threads, 1-4 connections per host, request time-out 600 ms) against a scripted raw loopback "
             "server; 1-14 requests issued at once (well above the connection limit) and a second wave 100 ms after the "
             "time-out; every request asks for its own number and the server answers 'resp-<number>': at once, delayed, "
-            "byte-dribbled, chunked, with Connection: close, never, half an answer and then nothing, the whole head and most of the body and then nothing, or late (300 ms after the time-out, so the late answer "
+            "byte-dribbled, chunked, with Connection: close and closing (also with requests queued behind it), closing without answering, answering at the very moment the request's own time-out expires (response and timer event in one batch), requests with their own time-outs or none mixed on one connection slot, never, half an answer and then nothing, the whole head and most of the body and then nothing, or late (300 ms after the time-out, so the late answer "
             "arrives while a second-wave request is in flight on the same pool slot). Per request: fulfilled with which "
             "number / rejected / never settled, promises settled twice, and the most simultaneous established client "
             "connections (sampled from /proc/net/tcp) against the limit; compared with the model run on the same timed "
-            "event history. non-trivial = a case with a time-out or more requests than connections; distinct by case line")
+            "event history. L cases: thousands of rounds of a request issued 0-300 us after another on a one-connection client (queued just as the connection is released). non-trivial = a case with a time-out or more requests than connections; distinct by case line")
     assumptions = ["wall-clock margins: server delays (<= 250 ms) stay well below the 600 ms time-out",
-                   "'Connection: close' answers are only generated where no request is queued behind them (the hand-over race to a closing connection is the HTTP keep-alive race, not decided here)",
+                   "with several connections and a server that closes some of them, which queued request is handed to the closing connection depends on the order the responses arrive in: model and implementation are compared exactly on the requests that start on fresh connections (and on everything when there is one connection); the oracle decides the others",
+                   "a request handed over to a connection the server is closing is lost with it (the HTTP keep-alive race): it must be settled (rejected), the next one goes out on a new connection",
+                   "for a request answered at the moment its time-out expires either outcome is allowed; the model is not run on those cases (oracle only)",
                    "simultaneous connections are bounded through the total accepted (a slot reconnects only after a close), not sampled",
-                   "timer-pool reuse across connections with mixed time-out/no-time-out requests is not exercised"]
+                   ]
 
     def same(self, case, impl, model):
+        t = case.split()
+        if t[0] == "K" and int(t[2]) > 1 and any(x[0] in "xX" for x in t[4].split(",")) and not impl.startswith(("CRASH", "HANG")):
+            # several connections and a server that closes some: WHICH queued request is handed to the closing connection
+            # depends on which response arrives first. Compared exactly: the requests that start on fresh connections;
+            # for the others the oracle decides (settled, own response or rejected)
+            m = int(t[2])
+            fi = dict(x.split("=") for x in impl.split()[1:]); fm = dict(x.split("=") for x in model.split()[1:])
+            return fi["r"].split(",")[:m] == fm["r"].split(",")[:m] and fi["twice"] == fm["twice"]
         return strip_conn(impl) == strip_conn(model)
 
 
@@ -39,7 +49,14 @@ class C15(Spec):
         return ["K 1 1 600 l e", "K 1 1 600 l,a a", "K 1 2 600 n,a a,a", "K 1 1 600 l,l,a,l,a a,e",
                 "K 2 2 600 n,l,a,b,c,n,a,a e,e,a", "K 1 2 600 x,a a,x", "K 1 8 0 a,b,c,d -",
                 "K 1 1 600 h a", "K 1 2 600 h,h,a,a a,e,a", "K 1 1 600 H a", "K 1 2 600 H,H,a,a a,e,a",
-                "K 1 2 1900 g,g,a -", "K 1 1 2500 g a"]
+                "K 1 2 1900 g,g,a -", "K 1 1 2500 g a",
+                # found by the second seeding round on the unmodified tree (all fixed): hand-over to a closing connection,
+                # stale timer event, second time-out on one slot, lost wake-up
+                "K 1 1 0 x@0,a@0,a@0 -", "K 1 1 600 x,a,a -", "K 1 1 600 X,a,a -", "K 1 2 600 X,x,a,a,a a",
+                "K 1 1 600 n@200,n@200,a@0 -", "K 1 1 600 n@200,n@300,a@0,n@250,a -",
+                "K 1 1 5000 " + ",".join(["T@20,a@0"] * 12) + " -", "K 1 1 5000 " + ",".join(["T@20,a@5000"] * 12) + " -",
+                "K 2 2 5000 " + ",".join(["T@25,a@0,a@3000"] * 8) + " -",
+                "L 1 4000", "L 2 3000"]
 
     def gen(self, rng, tier):
         cases = list(self.corpus())
@@ -52,45 +69,76 @@ class C15(Spec):
             for _i in range(k):
                 r = rng.random()
                 if r < 0.25 and slow < 3 * m:
-                    w1.append(rng.choice("nlhH")); slow += 1
-                elif r < 0.3 and k <= m:
-                    w1.append("x")
+                    b = rng.choice("nlhH"); slow += 1
+                    if rng.random() < 0.3:
+                        b += "@%d" % rng.choice([200, 300, 450])     # its own, shorter time-out
+                elif r < 0.33:
+                    b = rng.choice("xX")
                 else:
-                    w1.append(rng.choice("adbc"))
+                    b = rng.choice("adbc")
+                    if rng.random() < 0.2:
+                        b += "@%d" % rng.choice([0, 0, 2000])
+                w1.append(b)
             w2 = [rng.choice("adbce") for _ in range(rng.randint(0, 6))]
             cases.append("K %d %d 600 %s %s" % (rng.randint(1, 3), m, ",".join(w1), ",".join(w2) if w2 else "-"))
+        for _ in range(3 if tier == "quick" else 40):
+            m = rng.randint(1, 2)
+            tmo = rng.choice([15, 20, 30])
+            other = rng.choice(["a@0", "a@5000", "d@0", "a@%d" % (tmo * 3)])
+            cases.append("K %d %d 5000 %s -" % (rng.randint(1, 2), m, ",".join(["T@%d,%s" % (tmo, other)] * rng.randint(6, 12))))
+        if tier != "quick":
+            cases += ["L 1 20000", "L 2 20000", "L 3 10000"]
         return cases
 
     def oracle(self, case, impl):
         if impl.startswith(("CRASH", "HANG")):
             return "client harness %s on %s (the client stopped making progress)" % (impl, case)
         t = case.split()
-        behs = t[4].split(",") + ([] if t[5] == "-" else t[5].split(","))
         f = dict(x.split("=") for x in impl.split()[1:])
+        if t[0] == "L":
+            if f["stuck"] != "0":
+                return ("a request issued while the only connection was being released was never settled although the server answers "
+                        "every request at once (%s round(s) of %s)" % (f["stuck"], case))
+            if f["wrong"] != "0":
+                return "%s request(s) were fulfilled with the response to another request (%s)" % (f["wrong"], case)
+            return None
+        toks = t[4].split(",") + ([] if t[5] == "-" else t[5].split(","))
+        behs = [x.split("@")[0] for x in toks]
+        tmos = [int(x.split("@")[1]) if "@" in x else int(t[3]) for x in toks]
         outs = f["r"].split(",")
+        closing = any(b in "xX" for b in behs)   # a request handed over to a connection that is being closed may be lost with it
         for i, (b, o) in enumerate(zip(behs, outs)):
             if o.startswith("F") and o != "F%d" % i:
                 return "request %d was fulfilled with the response to request %s (%s)" % (i, o[1:], case)
             if o == "P":
                 return "request %d (%s) was never settled (%s)" % (i, b, case)
-            if b in "adbcexg" and o != "F%d" % i:
+            # (the first <limit> requests go out on fresh connections: they are never handed over)
+            if b in "adbcexg" and o != "F%d" % i and not (closing and i >= int(t[2])):
                 return "request %d was answered by the server but its promise was %s (%s)" % (i, o, case)
-            if b in "nlhH" and int(t[3]) > 0 and o != "R":
-                return "request %d was not answered within its time-out but its promise was %s (%s)" % (i, o, case)
+            if b in "nlhHX" and (tmos[i] > 0 or b == "X") and o != "R":
+                return "request %d was not answered (%s) but its promise was %s (%s)" % (i, b, o, case)
         if f["twice"] != "0":
             return "a request's promise was settled more than once (%s)" % case
         # a pool slot opens a new connection only after its previous one was closed (time-out or server close)
-        closes = sum(1 for b in behs if b in "nlhHx")
+        closes = sum(1 for b in behs if b in "nlhHxXT")
         if int(f["accepted"]) > int(f["limit"]) + closes:
             return "the server accepted %s connections: more than the limit %s plus the %d connections closed by time-out/server (%s)" % (f["accepted"], f["limit"], closes, case)
         return None
 
     def nontrivial(self, case, impl):
         t = case.split()
+        if t[0] == "L":
+            return True
         return any(b in t[4] for b in "nlhH") or len(t[4].split(",")) > int(t[2])
 
     def kind(self, case, impl):
         t = case.split()
+        if t[0] == "L":
+            return "queued-as-released"
+        if "T" in t[4]:
+            return "response-at-time-out"
+        if any(b in t[4] for b in "xX") and len(t[4].split(",")) > int(t[2]):
+            return "server-close-with-queue"
         return "m%s-%s%s" % (t[2], "timeout" if any(b in t[4] for b in "nlhH") else "answered", "-overflow" if len(t[4].split(",")) > int(t[2]) else "")
 
 
